@@ -188,11 +188,11 @@ def run_case(case):
                 if mod[2] == "heavy" and mod[3].endswith("_cc"):
                     got = k.coeff.convolution_point()
                     compared += 1
-                    if abs(got - float(chi)) > 4e-16 * float(chi):
+                    if abs(got - float(chi)) > 1e-13 * float(chi):  # (the code forms x/lambda with lambda = 1/(1+m2/Q2): a few roundings)
                         viol.append(dict(sig=f"slow-rescaling|{mod[3]}", what=f"{mod[3]}.{type(k.coeff).__name__} convolved at {got!r}; slow rescaling x(1+m2/Q2) = {float(chi)!r}"))
             seen_pts = {pt for _c, pt in cv}
             compared += 1
-            if float(chi) < 1 and not any(abs(pt - float(chi)) <= 4e-16 * float(chi) for pt in seen_pts):
+            if float(chi) < 1 and not any(abs(pt - float(chi)) <= 1e-13 * float(chi) for pt in seen_pts):
                 viol.append(dict(sig="slow-rescaling-not-seen", what=f"{name}: convolve_vector was never called at x(1+m2/Q2) = {float(chi)!r} (seen {sorted(seen_pts)[:4]})"))
             if chi >= 1:
                 for key, (val, err) in res.orders.items():
